@@ -167,6 +167,12 @@ def run_case(ctx, kind_, idx):
                 a = arr(rng, 1, 50).astype(float)
                 n = int(rng.integers(1, 17))
                 ia = IntervalArray(a.copy(), n)
+                if rng.integers(0, 8) == 0:
+                    flat_view = IntervalArray(a.copy())          # documented default: interval size 1 = plain array
+                    q = int(rng.integers(0, len(a)))
+                    if float(flat_view[q, 0]) != float(a[q]) or flat_view.nr_of_full_intervals() != len(a) or \
+                            flat_view.to_2d_array().shape != (len(a), 1):
+                        return fail("default_interval_size_is_not_one")
                 flat = int(rng.integers(0, len(a)))
                 i, j = divmod(flat, n)
                 info.update({"len": len(a), "n": n, "i": i, "j": j})
